@@ -58,8 +58,12 @@ func genC03(r *simrt.Rand, tier string, idx int) *hx.Program {
 				back = int64(1 + r.Intn(3))
 			}
 			p.Ops = append(p.Ops, hx.Op{K: "hw", S: []string{"H", "H", "G"}[r.Intn(3)], A: []int64{f, back}})
-		case k < 74:
+		case k < 70:
 			p.Ops = append(p.Ops, hx.Op{K: "ro", S: "T", A: []int64{int64(r.Intn(2))}})
+		case k < 74:
+			// the uncommitted tail is cut (a leader that was deposed) and appending goes on from there: the
+			// segment a reader sits in is replaced under it, nothing at or below the HW changes
+			p.Ops = append(p.Ops, hx.Op{K: "trunc", S: "A", A: []int64{int64(r.Intn(1001))}})
 		case k < 88:
 			if readers < 4 {
 				readers++
@@ -100,16 +104,17 @@ func (h *hist) held(v int64, from int) bool {
 }
 
 type c03reader struct {
-	id       int
-	start    int64
-	hiHW     int64
-	lastStep int
-	lowHW    int64
-	eff      int64
-	last     int64
-	got      int
-	done     bool
-	err      error
+	id            int
+	start         int64
+	hiHW          int64
+	lastStep      int
+	lowHW         int64
+	eff           int64
+	last          int64
+	got           int
+	done          bool
+	err           error
+	truncsAtStart int
 }
 
 func execC03(t *testing.T, prog *hx.Program, dec *simrt.Decider, verbose bool) *hx.Outcome {
@@ -118,6 +123,7 @@ func execC03(t *testing.T, prog *hx.Program, dec *simrt.Decider, verbose bool) *
 		maxSegs  int
 		roEnds   int
 		parkedHW int
+		truncs   int
 	)
 	oc := runH1(t, prog, dec, verbose, func(h *h1) {
 		seg := prog.Param("seg", 100)
@@ -161,6 +167,7 @@ func execC03(t *testing.T, prog *hx.Program, dec *simrt.Decider, verbose bool) *
 			}
 		}
 
+		truncating, moving := false, 0
 		startReader := func(start int64) {
 			lr := &c03reader{id: len(readers) + 1, start: start, last: -1, eff: start}
 			readers = append(readers, lr)
@@ -168,8 +175,16 @@ func execC03(t *testing.T, prog *hx.Program, dec *simrt.Decider, verbose bool) *
 				defer func() { lr.done = true }()
 				lr.lowHW = h.hwDone
 				lr.lastStep = h.s.Steps
+				truncs0 := truncs
 				r, err := log.NewReader(start, false)
+				lr.truncsAtStart = truncs
 				if err != nil {
+					if c := pkgErrors.Cause(err); (c == ErrSegmentReplaced || c == ErrSegmentClosed) && (truncating || truncs != truncs0) {
+						// reader creation raced the replacement of a segment (truncation): a retryable error, nothing
+						// was handed out; the statement is about what readers deliver
+						h.s.Count("probe.newreader_raced_truncation")
+						return
+					}
 					h.fail("C03/reader", "C03/reader/new", "NewReader(%d, committed): %v", start, err)
 					return
 				}
@@ -271,6 +286,23 @@ func execC03(t *testing.T, prog *hx.Program, dec *simrt.Decider, verbose bool) *
 			})
 		}
 		spawn("A", func(op hx.Op) {
+			if op.K == "trunc" {
+				// (the HW movers work from the log end they saw: they are kept out while the tail is cut)
+				truncating = true
+				simrt.WaitUntil("movers-idle", func() bool { return moving == 0 || h.stop })
+				to := h.hw + 1 + op.Arg(0, 0)*(h.next-h.hw-1)/1000
+				if to < h.next && !h.stop && !ro {
+					if err := log.Truncate(to); err != nil {
+						h.fail("C03/truncate", "C03/truncate/error", "Truncate(%d) with hw %d: %v", to, h.hw, err)
+					}
+					h.model = h.model[:h.firstAtOrAfter(to)]
+					h.next, doneNext = to, to
+					truncs++
+					h.s.Logf("truncated to %d (hw %d)", to, h.hw)
+				}
+				truncating = false
+				return
+			}
 			n := int(op.Arg(0, 1))
 			r := simrt.NewRand(uint64(op.Arg(1, 1)))
 			now := time.Now().UnixNano()
@@ -307,6 +339,9 @@ func execC03(t *testing.T, prog *hx.Program, dec *simrt.Decider, verbose bool) *
 			h.s.Logf("appended %d..%d", first, h.next-1)
 		})
 		moveHW := func(op hx.Op) {
+			simrt.WaitUntil("no-truncation", func() bool { return !truncating || h.stop })
+			moving++
+			defer func() { moving-- }()
 			if doneNext == 0 {
 				return
 			}
@@ -365,7 +400,14 @@ func execC03(t *testing.T, prog *hx.Program, dec *simrt.Decider, verbose bool) *
 				return true
 			}
 			if lr.eff == -1 {
-				return h.hwDone <= lr.hiHW // possibly nothing was committed after its creation: entitled to nothing yet
+				if h.hwDone <= lr.hiHW {
+					return true // possibly nothing was committed after its creation: entitled to nothing yet
+				}
+				// A reader created beyond the HW resumes at HW+1 as of its creation - unless the segment it waits in
+				// is replaced (truncation) before it delivered anything: it then starts over from the offset it was
+				// asked for. Where such a reader is positioned is not defined; it is owed what lies at or after its
+				// start offset only.
+				return truncs > lr.truncsAtStart && lr.start > doneNext-1
 			}
 			return lr.last >= doneNext-1 || lr.eff > doneNext-1
 		}
@@ -407,5 +449,6 @@ func execC03(t *testing.T, prog *hx.Program, dec *simrt.Decider, verbose bool) *
 	oc.Counters["probe.committed_readers"] = len(readers)
 	oc.Counters["probe.messages_delivered"] = total
 	oc.Counters["probe.readonly_end_seen"] = roEnds
+	oc.Counters["probe.uncommitted_tail_truncated"] = truncs
 	return oc
 }
